@@ -42,6 +42,15 @@ def instances(tier):
         for q in range(nocc):
             for mode in range(3):  # remove+all occurrences / keep+all / keep+only the current one
                 out.append(("inline.%s.q%02d.m%d" % (sk.name, q, mode), dict(k=k, q=q, mode=mode)))
+        if tier == "thorough":
+            # two-letter spellings, one slot at a time, queried at that slot's first occurrence
+            from harness.bcommon import len2_variants
+
+            slots_in_order = [int(x) for t in sk.files.values() for x in re.findall(r"\{(\d+)\}", t)]
+            for suf, slot in len2_variants(sk, tier)[1:]:
+                q = slots_in_order.index(slot)
+                for mode in range(3):
+                    out.append(("inline.%s.q%02d.m%d%s" % (sk.name, q, mode, suf), dict(k=k, q=q, mode=mode, len2=slot)))
     return out
 
 
@@ -53,7 +62,9 @@ def _no_reference_left(before, after, op):
 
 
 def make_run(p):
-    sk = K04[p["k"]]
+    from harness.bcommon import with_len2
+
+    sk = with_len2(K04[p["k"]], p.get("len2"))
 
     def build_op(sk_, names, files, cf):
         occs = occurrences_of_slots(sk, names)
